@@ -23,7 +23,7 @@ RULE = (
     "(1) every concatenation of <=N atoms from a 30-atom lexical alphabet (N=4 quick; thorough adds N=5 over a 20-atom core) "
     "and of <=M atoms from a 22-atom phrase alphabet (M=3 quick, 4 thorough) - exhaustive; (2) valid codes printed from generated circuit trees "
     "with all prefixes, all single-character deletions and random single/double insertions/substitutions; (3) nesting "
-    "depth probes 10..3000. Every string is one evaluation; distinct_nontrivial counts distinct strings that were either "
+    "depth probes 10..3000 and width probes (flat circuits with 2..400 containers / keyword sub-circuits). Every string is one evaluation; distinct_nontrivial counts distinct strings that were either "
     "accepted or rejected by a parser-level (not tokenizer-level) error, i.e. that got past lexing."
 )
 ASSUMPTIONS = [
@@ -296,6 +296,14 @@ def run_case(case):
             probes.append("[(" * d + "RC" + ")]" * d)
             probes.append("[" * d)
             probes.append("(R" * d)
+        # width probes: flat circuits with MANY elements / containers / keyword sub-circuits (no nesting at all)
+        for n in (2, 7, 11, 12, 33, 34, 65, 130, 400):
+            probes.append("Tlm" * n)
+            probes.append("(" + "Tlm" * n + ")")
+            probes.append("R" * n)
+            probes.append("Tlm{X_1=short,X_2=zero,Z_A=open,Z_B=inf}" * min(n, 130))
+            probes.append("[Tlm(TlmbqC)]" * min(n, 130))
+            probes.append("Tlm{X_1=R,X_2=C,Zeta=Q}" * min(n, 130))
         for s in probes:
             r = classify(s, viol, st)
             st["depth:" + r] = st.get("depth:" + r, 0) + 1
